@@ -215,7 +215,7 @@ def sweep_stale_roots():
             continue
         parts = name.split("-")
         try:
-            pid = int(parts[1])
+            pid = int(parts[2] if parts[1] in ("drv", "self") else parts[1])
         except Exception:
             continue
         try:
